@@ -325,4 +325,22 @@ theorem findKey_char_utf8 (hT : T.WF) (mode : KeyMode) {p : List Nat} {c : Nat} 
   · have := hT.esc_is_key p hmem (by omega)
     rw [this] at hnk; cases hnk
 
+/-- a known key can be named in every mode (the NotImplementedError / UnicodeDecodeError branches of `_key_name`
+    are unreachable from `get_key`) -/
+theorem keyName_ok_of_known (hT : T.WF) (seq : List Nat) (enc : Enc) (mode : KeyMode)
+    (hk : keyKnown T seq enc = true) : ∃ k, keyName T seq enc mode = .ok k := by
+  by_cases hkey : T.isKey seq = true
+  · obtain ⟨k, h, _⟩ := keyName_isKey hT hkey enc mode
+    exact ⟨k, h⟩
+  · have hkey : T.isKey seq = false := by simpa using hkey
+    have hd : decodable seq enc = true := by
+      simp only [KeyTables.isKey] at hkey
+      simp only [keyKnown, Bool.or_assoc] at hk
+      rw [← Bool.or_assoc, hkey] at hk
+      simpa using hk
+    simp only [decodable, Option.isSome_iff_exists] at hd
+    obtain ⟨cs, hcs⟩ := hd
+    exact ⟨_, keyName_plain enc mode hkey hcs⟩
+
+
 end Curtsies
